@@ -1,8 +1,8 @@
 /-
   C03 — model of the signature machinery of vita.
 
-  * `packF` : `i_mep::pack` as written (src/kernel/gp/mep/i_mep.cc): 16-bit opcode
-    (two little-endian bytes), then either the packed arguments, depth first, in
+  * `packF` : `i_mep::pack` as written (src/kernel/gp/mep/i_mep.cc): the opcode (`opcode_t` =
+    `unsigned`, four little-endian bytes), then either the packed arguments, depth first, in
     argument order (function) or, for a parametric terminal, the eight raw bytes of
     `par`; nothing else (no indices, no introns).
   * `unfoldF` : the active expression tree rooted at a locus.
@@ -62,13 +62,14 @@ def WF (tab : SymTab) (g : Genome) : Prop :=
     (g.gene i c).args.length = tab.arity (g.gene i c).op ∧
     (∀ a ∈ (g.gene i c).args, i < a ∧ a < g.rows) ∧
     (∀ k ∈ (tab (g.gene i c).op).argCats, k < g.cols) ∧
-    (g.gene i c).op < 65536 ∧
+    (g.gene i c).op < 4294967296 ∧
     (g.gene i c).par < 2 ^ 64
 
 /-! ### byte images -/
 
-/-- `static_cast<std::uint16_t>(opcode)` as two little-endian bytes -/
-def opBytes (op : Nat) : Bytes := [op % 256, op / 256 % 256]
+/-- the four raw bytes of `opcode_t opcode` (little endian) -/
+def opBytes (op : Nat) : Bytes :=
+  [op % 256, op / 256 % 256, op / 65536 % 256, op / 16777216 % 256]
 
 /-- the eight raw bytes of a `double` (little endian) -/
 def parBytes (p : Nat) : Bytes :=
@@ -122,7 +123,7 @@ mutual
 /-- a tree over `tab`: arities respected, parameter only where the symbol has one -/
 def WFT (tab : SymTab) : Tree → Prop
   | .node op par kids =>
-    op < 65536 ∧ par < 2 ^ 64 ∧ kids.length = tab.arity op ∧
+    op < 4294967296 ∧ par < 2 ^ 64 ∧ kids.length = tab.arity op ∧
     (tab.isParam op = false → par = 0) ∧ WFTs tab kids
 def WFTs (tab : SymTab) : List Tree → Prop
   | [] => True
